@@ -288,8 +288,34 @@ def defaults_and_dispatch(repo: Repo, R, m: pt.PdkModel):
                         why="KeyError instead of the PDK default")
     ud = w.methods.get("use_defaults")
     if ud is not None:
-        ok = any(isinstance(n, ast.If) and ast.unparse(n.test) == "params.w is None" and bool(pat.find("w = defaults[modname][0]", n)) for n in au.walk_no_nested(ud.node)) and any(isinstance(n, ast.If) and ast.unparse(n.test) == "params.l is None" and bool(pat.find("l = defaults[modname][1]", n)) for n in au.walk_no_nested(ud.node))
-        given = bool(pat.find("w = params.w", ud.node)) and bool(pat.find("l = params.l", ud.node))
+        # by value: every returned pair is (w, l) with each component the given size when there is one, else the
+        # default of the same position
+        ok = given = True
+        n_ret = 0
+        for r_ in shared.returns_of(ud.node):
+            for v_, cds in shared.alternatives(ud.node, r_.value, shared.path_conditions(ud.node, r_), at=r_):
+                n_ret += 1
+                if not (isinstance(v_, ast.Tuple) and len(v_.elts) == 2):
+                    ok = given = False
+                    continue
+                cds = shared.resolved_conditions(ud.node, cds)
+                for pos, dim in ((0, "w"), (1, "l")):
+                    none = None
+                    for t_, pol_ in cds:
+                        if ast.unparse(t_) == f"params.{dim} is None":
+                            none = pol_
+                    e_ = v_.elts[pos]
+                    # the same unit scaling may be applied to both components
+                    if isinstance(e_, ast.Call) and ast.unparse(e_.func) == "self.scale_param" and len(e_.args) == 2 and isinstance(v_.elts[1 - pos], ast.Call) and ast.unparse(v_.elts[1 - pos].func) == "self.scale_param" and ast.unparse(e_.args[1]) == ast.unparse(v_.elts[1 - pos].args[1]):
+                        e_ = e_.args[0]
+                    txt = ast.unparse(e_)
+                    if none is True:
+                        ok = ok and txt == f"defaults[modname][{pos}]"
+                    elif none is False:
+                        given = given and txt == f"params.{dim}"
+                    else:
+                        ok = given = False
+        ok, given = ok and n_ret > 0, given and n_ret > 0
         R.check(ok and given, rule, f"pdks/{m.name}::use_defaults", ud.site, f"{m.name}.use_defaults: given sizes are used ({given}); missing ones come from (width, length) of the PDK default for that device ({ok})", why="width and length defaults are exchanged, or given sizes are ignored")
 
 
@@ -308,10 +334,10 @@ def caches(repo: Repo, R, m: pt.PdkModel):
                 reads.add(c if shared.cond_match(f.node, r, f"params in {c}", True, use_prov=False) else c + "?")
         wst = [st for st in au.stmts(f.node) if isinstance(st, ast.Assign) and isinstance(st.targets[0], ast.Subscript) and ast.unparse(st.targets[0].value).startswith("CACHE.") and ast.unparse(st.targets[0].slice) == "params"]
         writes = {ast.unparse(st.targets[0].value) for st in wst}
-        # what is stored is what is returned on a miss, and it is the device called with the parameters built here
-        miss_rets = [r for r in rets if not isinstance(r.value, ast.Subscript)]
-        ret_ok = len(wst) == 1 and len(miss_rets) == 1 and shared.prov_text(f.node, miss_rets[0].value, depth=1) == shared.prov_text(f.node, wst[0].value, depth=1)
-        call_ok = len(wst) == 1 and pat.match("$MOD($P)", shared.prov(f.node, wst[0].value, depth=1)) is not None
+        # what is stored is what is returned on a miss (however many branches build it), and it is the device called with
+        # the parameters built here
+        ret_ok = len(writes) == 1 and shared.memo_discipline(f.node, next(iter(writes)), "params")[0]
+        call_ok = bool(wst) and all(pat.match("$MOD($P)", v) is not None for st in wst for v, _c in shared.alternatives(f.node, st.value, shared.path_conditions(f.node, st), depth=2, at=st))
         ok = len(reads) == 1 and reads == writes and ret_ok and call_ok
         R.check(ok, rule, f"pdks/{m.name}::{meth}", f.site, f"{m.name}.{meth}: reads {sorted(reads)} and writes {sorted(writes)}, keyed by the whole parameter object; returns the (cached) call: {ret_ok and call_ok}",
                 why="equal primitive parameters give different device calls (or another device class's call is returned)")
